@@ -130,3 +130,86 @@ def gen_live_closure(rng):
     for mi in range(n_markets):
         gen_actions(rng, markets[mi], "L0", mix)
     return sc
+
+
+# --------------------------------------------------------------------------- C12: systematic fault enumeration
+OUTCOMES = ["SUCCESS", "TIMEOUT"] + ["FAILURE:" + x for x in FAIL_CODES]
+KINDS = ["place", "cancel", "update", "replace"]
+
+
+def c12_space():
+    """(kind, n_orders, outcome assignment index, transport kind index or -1, faulted attempts 0..4, completed-between flag)"""
+    space = []
+    for kind in KINDS:
+        for n in (1, 2):
+            for oi in range(len(OUTCOMES) ** n):
+                for ti in range(-1, len(TRANSPORT)):
+                    for att in ((0,) if ti < 0 else (1, 2, 3, 4)):
+                        for comp in (0, 1):
+                            space.append((kind, n, oi, ti, att, comp))
+    return space
+
+
+_SPACE = None
+
+
+def c12_space_size():
+    global _SPACE
+    if _SPACE is None:
+        _SPACE = c12_space()
+    return len(_SPACE)
+
+
+def gen_c12_systematic(rng, idx):
+    """One cell of the fault space, executed under a seeded schedule."""
+    c12_space_size()
+    kind, n, oi, ti, att, comp = _SPACE[idx % len(_SPACE)]
+    outs = []
+    x = oi
+    for _ in range(n):
+        outs.append(OUTCOMES[x % len(OUTCOMES)])
+        x //= len(OUTCOMES)
+    knobs = {"n_updates": (7, 8), "p_removal": 0.0, "p_suspend": 0.0, "p_inplay": 0.0, "p_close": 0.0, "n_runners": (2, 3), "spacing": "normal"}
+    m = marketgen.gen_market(rng, 0, knobs)
+    places = []
+    for k in range(n):
+        side = "BACK" if k % 2 == 0 else "LAY"
+        places.append({"op": "place", "sel": m["runners"][k % len(m["runners"])], "side": side, "type": "LIMIT", "price": 900.0 if side == "BACK" else 1.02, "size": r2(rng.choice([2.0, 3.0, 4.5])), "persistence": "LAPSE"})
+    m["updates"][1]["acts"] = {"L0": [{"op": "txn", "acts": places} if n > 1 else places[0]]}
+    target_call = 1
+    if kind != "place":
+        reqs = []
+        for k in range(n):
+            a = {"op": kind, "order": k}
+            if kind == "update":
+                a["pt"] = "PERSIST"
+            if kind == "replace":
+                a["price"] = 850.0 if k % 2 == 0 else 1.05
+            if kind == "cancel" and rng.random() < 0.3:
+                a["red"] = 1.0
+            reqs.append(a)
+        m["updates"][4]["acts"] = {"L0": [{"op": "txn", "acts": reqs} if n > 1 else reqs[0]]}
+        target_call = 2
+    faults = {}
+    for a in range(att):
+        faults[str(target_call + a)] = {"transport": TRANSPORT[ti]}
+    plan = {"reports": outs}
+    if kind == "cancel" and rng.random() < 0.3:
+        plan["shuffle"] = True
+    faults[str(target_call + att)] = plan
+    sc = {
+        "world": "B",
+        "cfg": {"async": False, "max_workers": rng.choice([32, 1])},
+        "clients": [{"limit": 5000}],
+        "markets": [m],
+        "strategies": [{"name": "L0", "markets": [0], "client": 0}],
+        "tape": [rng.randrange(1_000_000) for _ in range(70)],
+        "duplicates": rng.random() < 0.3,
+        "idle_ticks": False,
+        "image_with_complete": True,
+        "max_steps": 600,
+        "faults": faults,
+        "exchange_events": ([{"type": rng.choice(["fill", "lapse"]), "bet": 0, "size": 50.0}] if comp else []),
+        "cell": [kind, n, outs, TRANSPORT[ti] if ti >= 0 else None, att, comp],
+    }
+    return sc
